@@ -78,7 +78,9 @@ Raise(m, kind, ix, task) ==
   IF w = {} THEN [m EXCEPT !.k = <<>>, !.out = [st |-> "err", kind |-> kind, at |-> ix, chain |-> Chain(m)], !.task = task]
   ELSE LET j == CHOOSE j \in w : \A q \in w : j <= q IN
        [m EXCEPT !.k = <<>>, !.out = [st |-> "err", kind |-> "TaskFailure", at |-> ix, chain |-> Chain(m)],
-                 !.task = [name |-> WrapName(m.k[j]), inner |-> kind, params |-> {}]]
+                 \* what the outermost task reports as its own cause: the failure of the next host task inside it, if
+                 \* there is one, otherwise the error itself
+                 !.task = [name |-> WrapName(m.k[j]), inner |-> IF Cardinality(w) >= 2 THEN "TaskFailure" ELSE kind, params |-> {}]]
 Fail(m, kind, ix) == Raise(m, kind, ix, NoTask)
 \* the top frame is finished and produced value x / no value
 Yield(m, x) == IF IsUnspec(x) THEN Unspecified(m) ELSE [m EXCEPT !.k = Pop(m.k), !.v = Append(m.v, x)]
